@@ -423,8 +423,15 @@ impl<'a> Gen<'a> {
         }
         let inner = self.innermost().clone();
         let cond_open = matches!(inner, Open::If | Open::Case);
-        let kind = self.rng.below(12);
+        let kind = self.rng.below(14);
         let (nodes, name): (Vec<Node>, &'static str) = match kind {
+            12 | 13 if inner == Open::Top && !self.in_def() => {
+                // a store to a name whose latest definition is a word (an older variable of that name is shadowed)
+                let k = self.stmt_seq;
+                let with_var = kind == 12;
+                let text = if with_var { format!("9 var sv{} : sv{} 1 ; 7 ! sv{}", k, k, k) } else { format!(": sw{} 1 ; 7 ! sw{}", k, k) };
+                (vec![self.node(Kind::Bad(text, "msg:word is readonly"))], if with_var { "store-to-word-shadowing-a-variable" } else { "store-to-word" })
+            }
             0 | 1 => (vec![self.node(Kind::Bad("qq-unknown".into(), "unknown-word"))], "unknown-word"),
             2 if !cond_open => {
                 let w = *self.rng.pick(&["then", "else", "endof", "endcase"]);
